@@ -1,8 +1,12 @@
 mod c09;
+mod c12;
 mod gen;
 mod npath;
+mod obs;
 mod report;
 mod rng;
+mod sched;
+mod simdoc;
 
 use serde_json::Value;
 
@@ -21,12 +25,15 @@ fn main() {
             let tier = arg_val(&args, "--tier").or_else(|| std::env::var("VERIF_TIER").ok()).unwrap_or_else(|| "quick".into());
             match id.as_str() {
                 "C09" => c09::drive(&tier, seed, workers),
+                "C12" => c12::drive(&tier, seed, workers),
                 _ => {
                     eprintln!("harness error: unknown property {}", id);
                     2
                 }
             }
         }
+        "run" => c12::run_main(args.iter().any(|a| a == "--full")),
+        "cold" => c12::cold_main(),
         "replay" => {
             let path = args.get(2).cloned().unwrap_or_default();
             let text = match std::fs::read_to_string(&path) {
@@ -46,6 +53,7 @@ fn main() {
             std::env::set_var("VERIF_REPLAY_PATH", &path);
             match body["property"].as_str() {
                 Some("C09") => c09::replay(&body),
+                Some("C12") => c12::replay(&body),
                 _ => {
                     eprintln!("harness error: replay file names no known property");
                     2
